@@ -184,10 +184,13 @@ complete top-level fields — all fields of the truncated tape that end inside t
 prefix of `C19_text_tape_common_prefix_partial` — and `tail'`, `tail` are again regular bodies.
 The first field of `tail'` (if any) is the one that reaches beyond the common prefix, i.e. the
 field being cut or the one whose last token may still change.
-Missing for the full statement: that this field is the LAST top-level field of the truncated tape
-(the truncated parse, fewer than two bytes of lookahead after the split point, cannot complete a
-second field behind it).  That needs a byte count over the last (at most three) iterations of the
-truncated run; the `tcut` correspondence op and its oracle cover it on the real code.
+Missing for the full statement: what lies behind that field in `tail'`.  It need not be the last
+field: for `a=b [[x] v]` cut at its end the split point is in front of `[[` (the one remaining
+iteration consumes the rest), so `a=b` is the field reaching beyond the common prefix (its `b`
+could still become a header) and `[[x] v]` is completed behind it — both also occur in the full
+tape.  Closing the gap needs the comparison of the LAST iterations (at most three, fewer than two
+bytes of lookahead after the first) of the truncated run with the full run on the lexeme being
+cut, state by state; the `tcut` correspondence op and its oracle cover it on the real code.
 -/
 theorem C19_text_tape_fields_partial (d : Bytes) (k : Nat) (T' T : List Tok) (b' b : Bool)
     (hk : k ≤ d.length) (hbom : hasBom (d.take k) = hasBom d)
